@@ -106,7 +106,9 @@ def build_engine(engine, config):
         jobs.append((src, o, plainflags)); objs.append(o)
     for f in ('simk.c', 'wipe.c'):
         o = os.path.join(out, 'k_' + f[:-2] + '.o')
-        jobs.append((os.path.join(kdir, f), o, instflags)); objs.append(o)
+        # the kernel's own bookkeeping is shared by all fibers by design: keep it out of TSan's view
+        fl = instflags + (' -fno-sanitize=thread' if f == 'simk.c' else '')
+        jobs.append((os.path.join(kdir, f), o, fl)); objs.append(o)
     for f in spec.get('common_sources', ()):
         o = os.path.join(out, 'c_' + f[:-2] + '.o')
         jobs.append((os.path.join(cdir, f), o, instflags)); objs.append(o)
@@ -150,9 +152,15 @@ def classify_crash(rc, err):
             if '/src/' in fm.group(2) and '/sim/' not in fm.group(2):
                 fn = ':' + fm.group(1)
         return f'crash:asan:{m.group(1)}{fn}'
+    m = re.search(r'ERROR: ThreadSanitizer: (\S+)', err)
+    if m:
+        fm = re.search(r'#0 (\S+) ', err[m.end():])
+        return f'crash:tsan:{m.group(1)}' + (':' + fm.group(1) if fm else '')
     m = re.search(r'runtime error: ([^\n]{0,60})', err)
     if m:
         return 'crash:ubsan:' + re.sub(r'[^A-Za-z]+', '-', m.group(1))[:40]
+    if rc == -14:
+        return 'hang:watchdog'
     if rc < 0:
         return f'crash:signal:{-rc}'
     return f'crash:exit:{rc}'
@@ -201,11 +209,18 @@ def run_leg(leg, seed, tier, tmpdir, digests=False, workers=None):
             r = subprocess.run(cmd, stdout=subprocess.PIPE, stderr=subprocess.PIPE, text=True, errors='replace')
             outs.append((r, sg))
             done = False
+            nxt = None
             for line in r.stdout.splitlines():
                 if line.startswith('SUMMARY '):
                     done = True
+                    m = re.search(r'"next":(\d+)', line)
+                    if m:
+                        nxt = int(m.group(1))
             if done and r.returncode == 0:
                 break
+            if done and r.returncode == 75 and nxt is not None:
+                cur = nxt   # the engine asked for a fresh process (e.g. abandoned fibers)
+                continue
             # crashed: attribute to the run in the status file
             try:
                 raw = open(st, 'rb').read(16)
@@ -379,7 +394,8 @@ def cmd_run(prop, tier, seed):
             c = cs[0]
             # fresh-process gate
             r1 = run_one(leg.binary, c['run_seed'], tier, leg.variant, prop)
-            if r1['cls'] != cls or ('stable' in c and not c['stable']):
+            # TSan reports each distinct race once per process, so a tsan class cannot repeat in-process
+            if r1['cls'] != cls or ('stable' in c and not c['stable'] and not cls.startswith('tsan:')):
                 print(f'HARNESS-FAULT {leg.label()} run_seed={c["run_seed"]} class {cls} did not reproduce in a fresh process (got {r1["cls"]})', flush=True)
                 harness_fault = True
                 continue
